@@ -93,6 +93,23 @@ def gen_cases(rng, ctx):
         l = line("c05_select", toks)
         cases.append(Case(l, l, kind="select", nontrivial=True,
                           meta={"flags": flags, "main": main, "alts": alts, "rp": rp, "ping": ping, "speed": speed, "queries": queries}))
+    # the demultiplexer behind the real listener (Core::listen on a loopback port): one real TLS handshake per query.
+    # HTTP/1.1 and HTTP/2 are enabled (the secondary channels' known finding needs a disabled protocol and is left to the door)
+    for _ in range(30 if thorough else 8):
+        flags, main, alts, rp, ping, speed = gen_config(rng)
+        while len(set(main + rp + ping + speed + [a for _, a in alts])) != len(main + rp + ping + speed + [a for _, a in alts]):
+            flags, main, alts, rp, ping, speed = gen_config(rng)
+        flags = [1, 1, flags[2], flags[3]]
+        toks = [flags, names(main), alts_tok(alts), names(rp), names(ping), names(speed)]
+        cands = [x for x in main + rp + ping + speed + [a for _, a in alts] + ["c." + main[0], "zz." + main[0], "nope"] + LABELS[:10]]
+        queries = []
+        for _ in range(12):
+            sni = rng.choice(cands)
+            alpn = [a for a in gen_alpn(rng) if a]
+            queries.append(([list(a) for a in alpn], sni))
+            toks += [names(alpn), list(sni.encode())]
+        cases.append(Case(line("c05_front", toks), line("c05_select", toks), kind="listener:handshakes", nontrivial=True,
+                          meta={"flags": flags, "main": main, "alts": alts, "rp": rp, "ping": ping, "speed": speed, "queries": queries, "front": True}))
     # reload histories
     for _ in range(60 if thorough else 15):
         flags, main, alts, rp, ping, speed = gen_config(rng)
@@ -166,6 +183,53 @@ def judge(case, impl, model, spec, ctx):
     if impl == "999":
         return [("violation", "the TLS demultiplexer panicked")]
     out = []
+    if case.meta and case.meta.get("front"):
+        if impl == "996":
+            ctx.setdefault("skipped_env", []).append(case.kind)
+            return []
+        if impl == "2":
+            return [("disagree", "host settings refused")] if model != "2" else []
+        exp = oracle(case.meta)
+        got = [untok(t) for t in impl.split()]
+        # the model's answers for the same queries
+        mt = model.split() if model and model != "2" else None
+        mans = []
+        if mt is not None:
+            i = 0
+            while i < len(mt):
+                t = untok(mt[i])
+                if t[0] == 0:
+                    mans.append(None)
+                    i += 1
+                else:
+                    mans.append(t)
+                    i += 2
+        for n, ((alpn, sni), e, g) in enumerate(zip(case.meta["queries"], exp, got)):
+            if g == [9]:
+                continue
+            what = "real TLS listener, SNI %r, ALPN offer %r" % (sni, [bytes(a) for a in alpn])
+            # on TCP an HTTP/3 choice is refused
+            want = None if (e is None or e[1] is None or e[1] == 3) else e[1]
+            if g[0] == 0:
+                if want is not None:
+                    out.append(("violation", "%s: handshake refused although the SNI designates a host and protocol %d is acceptable" % (what, want)))
+            else:
+                if want is None:
+                    out.append(("violation", "%s: handshake completed (protocol %d) although %s" % (
+                        what, g[1], "the SNI designates no entry or only unknown protocols were offered" if e is None else "no acceptable protocol is offered on TCP")))
+                elif alpn and g[1] != want:
+                    out.append(("violation", "%s: protocol %d negotiated, the most preferred offered+enabled+permitted one is %d" % (what, g[1], want)))
+                elif not alpn and g[1] != 0:
+                    out.append(("violation", "%s: a protocol was announced although the client offered none" % what))
+            if out:
+                break
+            if n < len(mans):
+                m = mans[n]
+                mwant = None if (m is None or m[2] == 3) else m[2]
+                if (g[0] == 1) != (mwant is not None) or (g[0] == 1 and alpn and g[1] != mwant):
+                    out.append(("disagree", "%s: listener %s, model %s" % (what, g, m)))
+                    break
+        return out
     if case.kind in ("select", "known:ping-protocol-not-enabled") and impl != "2":
         toks = impl.split()
         exp = oracle(case.meta)
